@@ -1,0 +1,9 @@
+//go:build verif
+
+package ufs
+
+import p9p "github.com/frobnitzem/go-p9p"
+
+// VerifOflags runs oflags (verification hook; build tag "verif" only,
+// add-only, no behaviour change).
+func VerifOflags(mode p9p.Flag) int { return oflags(mode) }
